@@ -876,6 +876,48 @@ func c06Prefixer(c *Ctx, r *Report) {
 							stores = append(stores, st)
 						}
 					}
+					// path := make([]interface{}, len(Path)+1); path[0] = loc; copy(path[1:], Path); Path = path
+					if ms, ok := st.Val.(*ssa.MakeSlice); ok && ms.Referrers() != nil {
+						head, tail := false, false
+						for _, ref := range *ms.Referrers() {
+							switch t := ref.(type) {
+							case *ssa.IndexAddr:
+								if k, ok := t.Index.(*ssa.Const); ok && k.Value != nil && k.Int64() == 0 && t.Referrers() != nil {
+									for _, r2 := range *t.Referrers() {
+										if s2, ok := r2.(*ssa.Store); ok && stripIface(s2.Val) == ssa.Value(locP) && instrDominates(s2, st) {
+											head = true
+										}
+									}
+								}
+							case *ssa.Slice:
+								if k, ok := t.Low.(*ssa.Const); ok && k.Value != nil && k.Int64() == 1 && t.High == nil && t.Referrers() != nil {
+									for _, r2 := range *t.Referrers() {
+										if cp, ok := r2.(*ssa.Call); ok && isBuiltinCall(cp, "copy") && cp.Call.Args[0] == ssa.Value(t) && instrDominates(cp, st) {
+											if _, o2, f2, ok := loadOfField(cp.Call.Args[1]); ok && o2 == "Error" && f2 == "Path" {
+												tail = true
+											}
+										}
+									}
+								}
+							}
+						}
+						// the new slice is one longer than the old path
+						longer := false
+						if bo, ok := ms.Len.(*ssa.BinOp); ok && bo.Op == token.ADD {
+							for _, pr := range [][2]ssa.Value{{bo.X, bo.Y}, {bo.Y, bo.X}} {
+								if k, ok := pr[1].(*ssa.Const); ok && k.Value != nil && k.Int64() == 1 {
+									if inner, isLen := isLenOf(pr[0]); isLen {
+										if _, o2, f2, ok := loadOfField(inner); ok && o2 == "Error" && f2 == "Path" {
+											longer = true
+										}
+									}
+								}
+							}
+						}
+						if head && tail && longer {
+							stores = append(stores, st)
+						}
+					}
 				}
 			case *ssa.IndexAddr:
 				if _, o, f, ok := loadOfField(ad.X); ok && o == "Error" && f == "Path" && stripIface(st.Val) == ssa.Value(locP) {
